@@ -317,6 +317,109 @@ Definition stmt_offsets_cover : Prop :=
   forall (l : list nat) (i : nat), i < list_sum l ->
     exists p i', p < length l /\ i' < nth p l 0%nat /\ i = (list_sum (firstn p l) + i')%nat.
 
+(** ** The coded (a, b) branches of gemv / gemv_T and the coded symv equal the one-formula
+    models, as lists, for every matrix and all vectors (no hypothesis on A): hence they have the
+    dense meaning of [stmt_gemv] / [stmt_gemv_T] / [stmt_symv]. *)
+Definition stmt_scale_fast : Prop := Laws O ->
+  forall (b : T) (y : list T), scale_fast O b y = map (fun t => mul O b t) y.
+
+Definition stmt_fast_paths : Prop := Laws O ->
+  forall (A : csc) (x y : list T) (a b : T),
+    gemv_fast O A x y a b = gemv O A x y a b /\
+    gemv_T_fast O A x y a b = gemv_T O A x y a b /\
+    symv_coded O A x y a b = symv O A x y a b.
+
+(** each branch separately: which code path runs for which coefficient *)
+Definition stmt_fast_branches : Prop := Laws O ->
+  forall (A : csc) (x y : list T) (a b : T),
+    (a = 0 -> gemv_fast O A x y a b = scale_fast O b y /\ gemv_T_fast O A x y a b = scale_fast O b y) /\
+    (b = 0 -> scale_fast O b y = map (fun _ => 0) y) /\
+    (b = one O -> scale_fast O b y = y) /\
+    (classify_coef O a = COne ->
+       gemv_fast O A x y a b = scatter O (fun v xj t => add O t (mul O v xj)) A x (scale_fast O b y)) /\
+    (classify_coef O a = CMinusOne ->
+       gemv_fast O A x y a b = scatter O (fun v xj t => sub O t (mul O v xj)) A x (scale_fast O b y)) /\
+    (classify_coef O a = CGeneral ->
+       gemv_fast O A x y a b =
+       scatter O (fun v xj t => add O t (mul O (mul O a v) xj)) A x (scale_fast O b y)).
+
+Definition stmt_gemv_fast_dense : Prop := Laws O ->
+  forall (A : csc) (x y : list T) (a b : T), WellDim A -> RowsIn A ->
+    (length y = nr A ->
+       forall i, i < nr A ->
+         nth i (gemv_fast O A x y a b) 0 =
+         add O (mul O b (nth i y 0))
+               (mul O a (sum_upto (nc A) (fun j => mul O (get A i j) (nth j x 0))))) /\
+    (length y = nc A ->
+       forall j, j < nc A ->
+         nth j (gemv_T_fast O A x y a b) 0 =
+         add O (mul O b (nth j y 0))
+               (mul O a (sum_upto (nr A) (fun i => mul O (get A i j) (nth i x 0))))) /\
+    (length y = nc A -> nr A = nc A -> is_triu A = true ->
+       forall i, i < nc A ->
+         nth i (symv_coded O A x y a b) 0 =
+         add O (mul O b (nth i y 0))
+               (mul O a (sum_upto (nc A) (fun j => mul O (symget A i j) (nth j x 0))))).
+
+(** the unchecked indexing of the symv kernel stays in bounds: on any square matrix accepted by
+    [check_format] every dereferenced position of [x] / [y] (asserted length n) is below n, and
+    colptr has the n + 1 entries the loop reads *)
+Definition stmt_symv_in_bounds : Prop :=
+  (forall A : csc, RowsIn A -> WellDim A -> nr A = nc A ->
+     Forall (fun k => k < nc A) (symv_trace A)) /\
+  (forall r : @raw T, check_format r = FmtOk -> rm r = rn r ->
+     length (rcolptr r) = S (rn r) /\ Forall (fun i => i < rn r) (rrowval r) /\
+     Forall (fun k => k < rn r) (symv_trace (decode r))).
+
+(** ** index_to_coord on the raw arrays: the row is rowval[idx], the column the unique j with
+    colptr[j] <= idx < colptr[j+1] (any dimension-consistent encoding: columns may be unsorted,
+    duplicated, empty at the front or the back) *)
+Definition stmt_raw_index_to_coord : Prop :=
+  forall (r : @raw T) (idx : nat), check_dimensions r = FmtOk ->
+    (raw_index_to_coord r idx = None <-> length (rrowval r) <= idx) /\
+    forall i j, raw_index_to_coord r idx = Some (i, j) ->
+      i = nth idx (rrowval r) 0%nat /\ j < rn r /\
+      nth j (rcolptr r) 0%nat <= idx < nth (S j) (rcolptr r) 0%nat /\
+      (forall j', j' < rn r ->
+         nth j' (rcolptr r) 0%nat <= idx < nth (S j') (rcolptr r) 0%nat -> j' = j).
+(** the raw version and the column-list version agree *)
+Definition stmt_index_to_coord_raw_agree : Prop :=
+  forall (r : @raw T) (idx : nat), check_dimensions r = FmtOk ->
+    index_to_coord O (decode r) idx = raw_index_to_coord r idx.
+
+(** ** is_triu with no sortedness (or any other) assumption: true iff every stored entry is on
+    or above the diagonal *)
+Definition stmt_is_triu_iff : Prop :=
+  forall A : csc,
+    is_triu A = true <->
+    (forall j (e : entry), In e (nth j (cols A) []) -> fst e <= j).
+
+(** ** the missing-diagonal helpers *)
+Definition stmt_add_missing_diag : Prop := Laws O ->
+  forall M : csc, Canonical M -> nr M = nc M -> is_triu M = true ->
+    let K := add_missing_diag O M in
+    Canonical K /\ is_triu K = true /\
+    (forall i j, get K i j = get M i j) /\
+    (forall j, j < nc M -> get_entry K j j <> None) /\
+    nnz K = nnz M + count_missing_diag M /\
+    count_diag_triu M + count_missing_diag M = nc M /\
+    (forall j, j < nc M ->
+       (diag_missing (nth j (cols M) []) j = true <-> get_entry M j j = None)).
+
+(** ** round trips between the full symmetric and the upper-triangular representation *)
+Definition stmt_triu_roundtrip : Prop := Laws O ->
+  forall P : csc, Canonical P ->
+    to_triu (to_triu P) = to_triu P /\
+    (is_triu P = true -> to_triu P = P) /\
+    (forall i j, symget (to_triu P) i j = symget (to_triu P) j i) /\
+    (* triu(sym(triu P)) = triu P *)
+    (forall i j, (if i <=? j then symget (to_triu P) i j else 0) = get (to_triu P) i j) /\
+    (* a symmetric P is recovered from its upper triangle *)
+    ((forall i j, get P i j = get P j i) -> forall i j, symget (to_triu P) i j = get P i j) /\
+    (* what DefaultProblemData::new keeps: P itself if upper triangular, else its upper triangle *)
+    (let P' := if is_triu P then P else to_triu P in
+     is_triu P' = true /\ Canonical P' /\ forall i j, i <= j -> get P' i j = get P i j).
+
 (** check_format accepts exactly the encodings of canonical matrices *)
 Definition stmt_check_format_iff : Prop :=
   forall r : @raw T,
